@@ -2,7 +2,7 @@
     Depends on Model/ only, so it builds (and the correspondence check runs) even when a
     proof obligation of some property is broken. *)
 From Coq Require Import List ZArith NArith Bool.
-From CqlProxy Require Import Lib.Val Lib.Util Model.Config Model.LB Model.Codec Model.Retry Model.Frame Model.Override Model.Gate Model.Streams Model.Classify Model.Handled Model.SysTables Model.OneReply Model.Sessions Model.Prepared Model.Events Model.Topology Model.Hostile Model.Astra Model.Core Model.CoreDrive Model.Ast Model.AstGen Model.Front Model.Monitor Model.ConnIO Model.Pool Model.Handshake Model.Heartbeat.
+From CqlProxy Require Import Lib.Val Lib.Util Model.Config Model.LB Model.Codec Model.Retry Model.Frame Model.Override Model.Gate Model.Streams Model.Classify Model.Handled Model.SysTables Model.OneReply Model.Sessions Model.Prepared Model.Events Model.Topology Model.Hostile Model.Astra Model.Core Model.CoreDrive Model.Ast Model.AstGen Model.Front Model.Monitor Model.ConnIO Model.Pool Model.Handshake Model.Heartbeat Model.Lz4.
 Import ListNotations.
 Local Open Scope N_scope.
 
@@ -19,8 +19,12 @@ Definition is_connio_case (input : val) : bool :=
 Definition is_hs_case (input : val) : bool :=
   match input with L (I 9%Z :: I _ :: L _ :: I _ :: B _ :: B _ :: I _ :: B _ :: B _ :: []) => true | _ => false end.
 
+Definition is_lz4_case (input : val) : bool :=
+  match input with L (I 10%Z :: I _ :: B _ :: []) => true | _ => false end.
+
 Definition run_prop (prop : bytes) (input : val) : val :=
   if is_trace_case input then L [I 0]
+  else if is_lz4_case input then run_lz4 input
   else if is_hs_case input then run_hs input
   else if is_connio_case input then run_connio input
   else if is_front_case prop input then run_front input
@@ -49,6 +53,7 @@ Definition run_prop (prop : bytes) (input : val) : val :=
 
 Definition holds_prop (prop : bytes) (input output : val) : val :=
   if is_trace_case input then holds_monitor input output
+  else if is_lz4_case input then holds_lz4 input output
   else if is_hs_case input then holds_hs input output
   else if is_connio_case input then holds_connio input output
   else if is_front_case prop input then holds_front input output
